@@ -187,7 +187,7 @@ theorem spec_maildirMove (env : PEnv) (src dst : Maildir) (ms : MsgSt) {fid0 : N
   split
   · exact fr1
   rename_i fl _
-  refine wpo_bind_mono (spec_genname env dst (some fl) fid0 c0 w0 4096 _ fr1) ?_
+  refine wpo_bind_mono (spec_genname env dst (some fl) fid0 c0 w0 gennameAttempts _ fr1) ?_
   rintro g w2 ⟨fr2, hnew⟩
   cases g with
   | none => exact fr2
